@@ -477,9 +477,13 @@ func (p *parser) resetInsertionMode() {
 			}
 			p.im = p.templateStack.top()
 		case a.Head:
-			// TODO: remove this divergence from the HTML5 spec.
-			//
-			// See https://bugs.chromium.org/p/chromium/issues/detail?id=829668
+			if last {
+				// Fragment case: the context element is a <head>, but there is
+				// no head element on the stack of open elements, so the "in
+				// head" rules (which pop it) must not be used.
+				p.im = inBodyIM
+				return
+			}
 			p.im = inHeadIM
 		case a.Body:
 			p.im = inBodyIM
